@@ -492,6 +492,65 @@ def nan_consistency(st):
                         {'op': op, 'rows_selected': answers})
 
 
+# ---- (3e) a source grid whose id index exists, with ids that share a string form --------------------------------
+
+def index_aliasing_checks(st):
+    """Filtering a grid that already has its id index (a parsed grid, or any grid after one lookup) must leave the answers of
+    the SOURCE unchanged, and the RESULT answers lookups with its own rows only."""
+    import hszinc as hs
+
+    def mk():
+        g = hs.Grid(version='3.0', columns=[('id', []), ('x', []), ('y', [])])
+        for r in ({'id': 'a', 'x': hs.MARKER}, {'id': 'b'}, {'id': 'a', 'y': hs.MARKER}, {'id': 7, 'x': hs.MARKER}, {'id': '7', 'y': hs.MARKER},
+                  {'id': hs.Ref('r', 'dis'), 'x': hs.MARKER}, {'id': hs.Ref('r'), 'y': hs.MARKER}):
+            g.append(r)
+        return g
+    keys = ['a', 'b', '7', 7, '@r', hs.Ref('r'), 'zz']
+
+    def answers(g):
+        out = []
+        for k in keys:
+            try:
+                hit = g.get(k)
+                out.append(None if hit is None else [i for i, r in enumerate(g) if r is hit])
+            except Exception as e:  # noqa
+                out.append('raised ' + type(e).__name__)
+        return out
+    for how in ('get', 'getitem', 'extend', 'none'):
+        for text in ('x', 'y', 'not x', 'id', 'x or y', 'x and not y', 'zz'):
+            g, twin = mk(), mk()
+            for t in (g, twin):
+                if how == 'get':
+                    t.get('zz')
+                elif how == 'getitem':
+                    t['b']
+                elif how == 'extend':
+                    t.extend([])
+            want = answers(twin)
+            out = run_filter(hs, g, text)
+            st.count('executions')
+            case = {'part': 'index-aliasing', 'index_built_by': how, 'filter': text}
+            sig = {'part': 'index-aliasing', 'index_built_by': how}
+            st.case(('index-aliasing', how, text), outcome=('index-aliasing', out[0]))
+            if out[0] != 'ok':
+                st.fail('valid-filter-rejected', dict(sig, exc=out[1]), case, {'filter': text})
+                continue
+            got = answers(g)
+            if got != want:
+                st.fail('filter-changed-what-the-source-grid-answers', dict(sig, lookup=str([k for k, a, b in zip(keys, got, want) if a != b][0])), case,
+                        {'filter': text, 'before': str(want), 'after': str(got)})
+            res = out[1]
+            mine = list(res)
+            for k in keys:
+                try:
+                    hit = res.get(k)
+                except Exception:  # noqa
+                    hit = None
+                if hit is not None and not any(hit is r for r in mine):
+                    st.fail('filter-result-answers-lookups-with-rows-it-does-not-hold', dict(sig, lookup=str(k)), case, {'filter': text})
+                    break
+
+
 # ---- (4) limit, empty filter -----------------------------------------------------------------------
 
 def limit_checks(st):
@@ -588,6 +647,7 @@ def run(ctx):
     for part in pmap(_hot_task, [(1300 if ctx.quick else 4000,)], ctx.jobs):
         st.merge(part)
     nan_consistency(st)
+    index_aliasing_checks(st)
     limit_checks(st)
     spacing_checks(st)
     unversioned_checks(st)
@@ -623,6 +683,9 @@ def replay(case, st):
     p = case['part']
     if p == 'pair':
         st.merge(pair_task([(case['l1'], case['l2'], case['conn'], case['op1'], case['op2'])]))
+        return
+    if p == 'index-aliasing':
+        index_aliasing_checks(st)
         return
     if p == 'nan':
         nan_consistency(st)
